@@ -304,13 +304,30 @@ func Run(id string, c Case, scratch string, w *abs.Writer) (crashes []jrn.Crash,
 	if err != nil {
 		return nil, err
 	}
+	// how the directory is named to the constructor: as it is, with a trailing separator, with "." and ".." segments,
+	// or through a symbolic link to it - it is the same directory
+	openAs := dir
+	if n, err := strconv.Atoi(strings.TrimPrefix(id, "tlc-")); err == nil {
+		switch n / len(dirNames) % 4 {
+		case 1:
+			openAs = dir + string(filepath.Separator)
+		case 2:
+			openAs = scratch + "/./" + filepath.Base(dir) + "/../" + filepath.Base(dir)
+		case 3:
+			openAs = filepath.Join(scratch, "link-to-dir")
+			if err := os.Symlink(dir, openAs); err != nil {
+				return nil, err
+			}
+			defer os.Remove(openAs)
+		}
+	}
 	crash := func() (crash string) {
 		defer func() {
 			if r := recover(); r != nil {
 				crash = fmt.Sprint(r)
 			}
 		}()
-		src, err := journal.NewDirectoryGtfsrtSource(dir)
+		src, err := journal.NewDirectoryGtfsrtSource(openAs)
 		if err != nil {
 			return "NewDirectoryGtfsrtSource: " + err.Error()
 		}
